@@ -220,8 +220,7 @@ theorem iterate_exact (L : Lawful o wf v M) (r : Range A) (hr : r.Valid wf v) (h
     simp only [List.reverse_nil, List.nil_append]
     refine ⟨?_, ?_⟩
     · rw [h2, take_range'_min]
-    · have : v r.last + 1 - v r.first = v r.last + 1 - v r.first := rfl
-      simp
+    · simp
   · -- hosts only: (first, last)
     simp only [if_true]
     have h3 : v r.first + 3 ≤ v r.last := by
